@@ -478,7 +478,10 @@ class IndicatorBox(BasePenalty):
         """Compute distance of negative gradient to the subdifferential at w."""
         subdiff_dist = np.zeros_like(grad)
         for idx, j in enumerate(ws):
-            if w[j] == 0:
+            if w[j] < 0 or w[j] > self.alpha:
+                # subdiff is empty outside the box, distance is infinite
+                subdiff_dist[idx] = np.inf
+            elif w[j] == 0:
                 # distance of - grad_j to  [-infty, 0]
                 subdiff_dist[idx] = max(0, - grad[idx])
             elif w[j] == self.alpha:
